@@ -8,7 +8,7 @@ CONSTANTS
   MaxSharePeers = 1
   MaxShareActors = 1
   MaxChunk = 9
-  NKinds = 5
+  NKinds = 4
   MaxDerive = 4
   BigPeers = 9
   SmallActors = 9
